@@ -21,7 +21,16 @@ import (
 // component s_pickfirst (C34): the real pick_first balancer, recording ClientConn and SubConns.
 // Ops and answers: see lean/GrpcModel/Driver/S_pickfirst.lean.
 
+// pfTimer is one happy-eyeballs timer: like time.AfterFunc, a callback that has been started cannot be stopped any
+// more — `late` runs the callback of a timer that was stopped before its callback ran.
+type pfTimer struct {
+	f       func()
+	stopped bool
+	ran     bool
+}
+
 type pfHarness struct {
+	timers  []*pfTimer
 	bal     balancer.Balancer
 	mu      sync.Mutex
 	ev      []string
@@ -152,6 +161,14 @@ func init() {
 		old := envconfig.PickFirstWeightedShuffling
 		envconfig.PickFirstWeightedShuffling = false
 		h.restore = append(h.restore, func() { envconfig.PickFirstWeightedShuffling = old })
+		h.restore = append(h.restore, pickfirst.VerifSetTimeAfterFunc(func(d time.Duration, f func()) func() {
+			if d != pickfirst.VerifConnectionDelay {
+				h.rec(fmt.Sprintf("timer?%v", d))
+			}
+			t := &pfTimer{f: f}
+			h.timers = append(h.timers, t)
+			return func() { t.stopped = true }
+		}))
 		h.bal = balancer.Get(pickfirst.Name).Build(&pfCC{h: h}, balancer.BuildOptions{})
 		return h
 	})
@@ -212,8 +229,8 @@ func (h *pfHarness) Op(f []string) string {
 	h.ev = nil
 	h.mu.Unlock()
 	extra := ""
-	if h.closed {
-		return "bad-op" // nothing is called on a balancer after Close
+	if h.closed && f[0] != "late" {
+		return "bad-op" // nothing is called on a balancer after Close (its own late timer callbacks can still run)
 	}
 	switch f[0] {
 	case "update":
@@ -254,7 +271,28 @@ func (h *pfHarness) Op(f []string) string {
 	case "reserr":
 		h.bal.ResolverError(errors.New("resolver"))
 	case "tick":
-		time.Sleep(250 * time.Millisecond) // connectionDelayInterval: fires the happy-eyeballs timer if armed
+		// the armed timer (not stopped, not run) fires
+		for i := len(h.timers) - 1; i >= 0; i-- {
+			if t := h.timers[i]; !t.stopped && !t.ran {
+				t.ran = true
+				t.f()
+				break
+			}
+		}
+	case "late":
+		// the callback of the most recently stopped timer that has not run: it had fired before Stop()
+		var t *pfTimer
+		for i := len(h.timers) - 1; i >= 0; i-- {
+			if x := h.timers[i]; x.stopped && !x.ran {
+				t = x
+				break
+			}
+		}
+		if t == nil {
+			return "bad-op"
+		}
+		t.ran = true
+		t.f()
 	case "exitidle":
 		h.bal.ExitIdle()
 	case "close":
